@@ -115,7 +115,12 @@ def syntax_faults(r):
     ]
 
 
-HOSTS = ["bare", "tuple-field", "list-element", "call-argument", "select-arm", "function-body", "nested-2"]
+HOSTS = ["bare", "tuple-field", "list-element", "call-argument", "select-arm", "function-body", "nested-2",
+         "function-body-via-map", "function-body-via-filter", "function-body-via-reduce", "function-body-via-tuple-map",
+         "function-body-via-function", "module-body"]
+# hosts whose fault only happens when a later statement calls (or instantiates) what the faulty statement defines
+CALLED_HOSTS = {"function-body", "function-body-via-map", "function-body-via-filter", "function-body-via-reduce",
+                "function-body-via-tuple-map", "function-body-via-function", "module-body"}
 
 
 def host_tokens(host, name, ftoks, r):
@@ -136,6 +141,25 @@ def host_tokens(host, name, ftoks, r):
     if host == "function-body":
         return (["let", name, "=", "func", "(", "arg", ")", "=>"] + ftoks + [";"],
                 ["let", name + "r", "=", name, "(", "1", ")", ";"])
+    # the same function body reached through a built-in that runs the callback, or through another function
+    if host == "function-body-via-map":
+        return (["let", name, "=", "func", "(", "arg", ")", "=>"] + ftoks + [";"],
+                ["let", name + "r", "=", "map", "(", name, ",", "[", "1", ",", "2", "]", ")", ";"])
+    if host == "function-body-via-filter":
+        return (["let", name, "=", "func", "(", "arg", ")", "=>"] + ftoks + [";"],
+                ["let", name + "r", "=", "filter", "(", name, ",", "[", "1", "]", ")", ";"])
+    if host == "function-body-via-reduce":
+        return (["let", name, "=", "func", "(", "acc", ",", "arg", ")", "=>"] + ftoks + [";"],
+                ["let", name + "r", "=", "reduce", "(", name, ",", "0", ",", "[", "1", ",", "2", "]", ")", ";"])
+    if host == "function-body-via-tuple-map":
+        return (["let", name, "=", "func", "(", "key", ",", "arg", ")", "=>"] + ftoks + [";"],
+                ["let", name + "r", "=", "map", "(", name, ",", "{", "a", "=", "1", "}", ")", ";"])
+    if host == "function-body-via-function":
+        return (["let", name, "=", "func", "(", "arg", ")", "=>"] + ftoks + [";"],
+                ["let", name + "r", "=", "idf", "(", "{", "a", "=", name, "(", "1", ")", "}", ")", ";"])
+    if host == "module-body":
+        return (["let", name, "=", "module", "{", "arg", "=", "1", "}", "=>", "(", "res", ")", "{", "let", "res", "="] + ftoks + [";", "}", ";"],
+                ["let", name + "r", "=", name, "{", "arg", "=", "2", "}", ";"])
     raise ValueError(host)
 
 
@@ -274,8 +298,6 @@ def task(args):
             host = r.choice(HOSTS)
             if kind.startswith("syntax-run-on"):
                 host = "bare"
-            if issyn and host == "function-body":
-                cstmt_needed = False
             nvalid = r.randint(1, 10)
             pos = r.randint(0, nvalid)
             toks, fidx, cidx, nst = build_case(probe, r, nvalid, kind, ftoks, host, pos)
